@@ -1674,7 +1674,8 @@ fn cover_proj(profile: &str, p: &Pools, rng: &mut Rng, out: &mut Vec<String>, pi
                                   3 => Val::M3(loop { let m = Matrix3::from_cols(rv3(rng), rv3(rng), rv3(rng)); if m.determinant().n != 0 { break m; } }),
                                   _ => { let c = |rng: &mut Rng| Vector4::new(small(rng), small(rng), small(rng), small(rng));
                                          Val::M4(loop { let m = Matrix4::from_cols(c(rng), c(rng), c(rng), c(rng)); if m.determinant().n != 0 { break m; } }) } };
-                emit1s("near_sing_proj", vec![m, Val::I(gc)], if gc <= 1 { F2 } else { &["Q", "f64"] }, out, pid);
+                // (double precision only: in f32 the rounding of the determinant, eps |M|^n, is of the size of g det M itself)
+                emit1("near_sing_proj", vec![m, Val::I(gc)], out, pid);
             } } }
         }
         "C05" | "C06" => {
